@@ -5,13 +5,16 @@
 package h23
 
 import (
+	"crypto/tls"
 	"net/http"
 
 	"github.com/gorilla/websocket"
 
 	"go.nanomsg.org/mangos/v3"
 	"go.nanomsg.org/mangos/v3/transport/ws"
+	_ "go.nanomsg.org/mangos/v3/transport/wss"
 	"go.nanomsg.org/mangos/v3/zzverif/verif"
+	"go.nanomsg.org/mangos/v3/zzverif/vnet"
 	"go.nanomsg.org/mangos/v3/zzverif/vp"
 	"go.nanomsg.org/mangos/v3/zzverif/vws"
 )
@@ -221,4 +224,95 @@ func VH23c_options() {
 	}
 	verif.Reach("ws-options")
 	sock.Close()
+}
+
+// VH23d_netlisten: the ws / wss listener in network mode (net.ListenTCP and,
+// for wss, tls.NewListener on the harness network; the HTTP server's accept
+// loop is a stub): configuration errors are reported with the designated
+// error, bind nothing and leave the listener usable; Listen succeeds after
+// the correction; an address in use is refused and accepted once free; Close
+// releases the address and leaves no goroutine (C12, C10, C19).
+func VH23d_netlisten() {
+	lab := "C12/ws-listen"
+	vws.Reset()
+	vnet.Install()
+	wss := verif.Param("wss", 0) == 1
+	url := "ws://127.0.0.1:8080/sp"
+	if wss {
+		url = "wss://127.0.0.1:8080/sp"
+	}
+	sock := vp.New("pair")
+	l, err := sock.NewListener(url, nil)
+	verif.Assert(err == nil, lab+"/new-listener")
+	if err != nil {
+		return
+	}
+	good := &tls.Config{Certificates: []tls.Certificate{{}}}
+	scenario := verif.Choice("scenario", 4)
+	if !wss && (scenario == 1 || scenario == 2) {
+		verif.Assume(false)
+	}
+	var blocker mangos.Socket
+	switch scenario {
+	case 0: // nothing wrong
+		if wss {
+			verif.Assert(l.SetOption(mangos.OptionTLSConfig, good) == nil, lab+"/set-config")
+		}
+	case 1: // wss without configuration
+		e := l.Listen()
+		verif.Assert(e == mangos.ErrTLSNoConfig, lab+"/listen-without-config-error-kind")
+	case 2: // wss with a configuration that has no certificate
+		verif.Assert(l.SetOption(mangos.OptionTLSConfig, &tls.Config{}) == nil, lab+"/set-empty-config")
+		e := l.Listen()
+		verif.Assert(e == mangos.ErrTLSNoCert, lab+"/listen-without-certificate-error-kind")
+	case 3: // address in use
+		if wss {
+			verif.Assert(l.SetOption(mangos.OptionTLSConfig, good) == nil, lab+"/set-config")
+		}
+		blocker = vp.New("pair")
+		opts := map[string]interface{}{}
+		if wss {
+			opts[mangos.OptionTLSConfig] = good
+		}
+		verif.Assert(blocker.ListenOptions(url, opts) == nil, lab+"/blocker")
+		e := l.Listen()
+		verif.Assert(e != nil, lab+"/listen-on-busy-address-succeeded")
+	}
+	if scenario != 0 {
+		verif.Assert(len(vnet.N.Listeners) == func() int {
+			if blocker != nil {
+				return 1
+			}
+			return 0
+		}(), lab+"/listening-although-listen-failed")
+		g := verif.Go("poke", func() {
+			l.GetOption(mangos.OptionMaxRecvSize)
+			l.SetOption(mangos.OptionMaxRecvSize, 100)
+			l.GetOption(mangos.OptionTLSConfig)
+			l.Address()
+		})
+		verif.Quiesce()
+		verif.Assert(g.Done(), lab+"/listener-wedged-after-failed-listen")
+		if blocker != nil {
+			verif.Assert(blocker.Close() == nil, lab+"/blocker-close")
+			verif.Quiesce()
+			verif.Assert(len(vnet.N.Listeners) == 0, "C10/ws/listening-address-left-after-close")
+		}
+		if wss {
+			verif.Assert(l.SetOption(mangos.OptionTLSConfig, good) == nil, lab+"/set-config-after-failed-listen")
+		}
+	}
+	e2 := l.Listen()
+	verif.Assert(e2 == nil, lab+"/listen-refused-although-nothing-is-wrong")
+	verif.Quiesce()
+	if e2 == nil {
+		verif.Assert(len(vnet.N.Listeners) == 1, lab+"/not-listening-after-listen")
+		verif.Assert(l.Address() == url, "C13/ws/listener-address")
+		verif.Reach("listening")
+	}
+	verif.Assert(sock.Close() == nil, "C10/ws/close")
+	verif.Quiesce()
+	verif.Assert(len(vnet.N.Listeners) == 0, "C10/ws/listening-address-left-after-close")
+	verif.Assert(verif.LiveGoroutines() == 0, "C10/ws/goroutines-left-after-close")
+	verif.Reach("closed")
 }
